@@ -143,12 +143,6 @@ fn run_real(w: &World, e: &REnt, trace: bool) -> Result<Vec<J>, String> {
     }
 }
 
-fn ids(rows: &[J]) -> Vec<String> {
-    rows.iter()
-        .map(|r| r.get("id").and_then(|i| i.as_str()).unwrap_or("?").to_string())
-        .collect()
-}
-
 type Row = (String, Option<Vec<Lit>>);
 
 #[derive(Debug, PartialEq)]
